@@ -414,6 +414,8 @@ def state_level(case) -> dict:
         "mapping": mapping,
         "combiner_all": sorted(name_ix[k] for k in getattr(st, "current_combiner_all", [])),
         "rpn_final": [name_ix.get(x, x) for x in st.splitter_rpn_final],
+        "keys_final": [name_ix[k] for k in st.keys_final],
+        "states_ind_final": [[[name_ix[k], v] for k, v in d.items()] for d in st.states_ind_final],
     }
 
 
@@ -589,3 +591,48 @@ def observable(view: dict | None, level: str, what: str = "rows") -> dict | None
     if level == "public":
         return {"outputs": view["outputs"]}
     return {"rows": view["rows"]} if what == "rows" else {"rows": view["rows"], "out": view.get("out")}
+
+
+# ---------------------------------------------------------------------------------------------------------------
+# regenerated tie for C05 ("rejected before any job is executed"): call-site skeleton of the functions between
+# Task.split / Task.combine and the creation of the task jobs, read from the current source
+
+STATE_CALLSITE_FUNCS = [
+    ("taskSplit", "pydra/compose/base/task.py", "Task", "split"),
+    ("taskCombine", "pydra/compose/base/task.py", "Task", "combine"),
+    ("submitterCall", "pydra/engine/submitter.py", "Submitter", "__call__"),
+    ("nodeSetState", "pydra/engine/node.py", "Node", "_set_state"),
+    ("nodeExecStart", "pydra/engine/submitter.py", "NodeExecution", "start"),
+    ("statePrepareStates", "pydra/engine/state.py", "State", "prepare_states"),
+    ("statePrepareStatesInd", "pydra/engine/state.py", "State", "prepare_states_ind"),
+    ("stateSplits", "pydra/engine/state.py", "State", "splits"),
+    ("stateCombinerValidation", "pydra/engine/state.py", "State", "combiner_validation"),
+]
+
+
+def extract_state_call_sites(ctx=None):
+    """lean/PydraModel/Gen/StateCallSites.lean: ordered (receiver, attribute, guarded) call events of the functions above
+    (same event extraction as harness/engines/rules.py:_function_events).  Raises when a function is not found."""
+    from harness.engines.rules import _function_events, _lean_str
+
+    lines = [
+        "/- GENERATED by harness/engines/statealg.py:extract_state_call_sites from the working tree of the repository. Do not edit. -/",
+        "namespace PydraModel.Gen.StateCallSites",
+        "",
+        "/-- (receiver, attribute, guarded): see `_function_events` in harness/engines/rules.py -/",
+        "abbrev RawEv := String × String × Bool",
+        "",
+    ]
+    for lean_name, rel, cls, fn in STATE_CALLSITE_FUNCS:
+        evs = _function_events(core.REPO / rel, cls, fn)
+        if not evs:
+            raise RuntimeError(f"no events extracted from {cls}.{fn}")
+        lines.append(f"/-- `{cls}.{fn}` ({rel}) -/")
+        lines.append(f"def {lean_name} : List RawEv := [")
+        lines.append(",\n".join(f"  ({_lean_str(r)}, {_lean_str(a)}, {'true' if g else 'false'})" for r, a, g in evs))
+        lines.append("]")
+        lines.append("")
+    lines.append("end PydraModel.Gen.StateCallSites")
+    out = core.LEAN / "PydraModel" / "Gen" / "StateCallSites.lean"
+    core.write_if_changed(out, "\n".join(lines) + "\n")
+    return [out]
